@@ -75,7 +75,84 @@ func spacesOf(recs []sim.WriteRec, applied int) string {
 	return strings.Join(parts, ",")
 }
 
+// c05BigImport: thorough tier only. A tree of ~10 400 nodes is exported and
+// imported so that the importer's own batch boundary (10 000 nodes, a constant
+// that cannot be lowered add-only) is crossed: the import then consists of
+// several physical writes, each boundary of which is a cut.
+func c05BigImport(p *drv.Plan) *Out {
+	out := &Out{Evals: 1, Probes: map[string]int{"mode.big-import": 1}, Stats: map[string]int{}, Faults: map[string]int{}}
+	out.Sample = "big-import: 10500 keys in two versions, export of version 2, import, every cut of the import's physical writes"
+	cfg := p.Config
+	cfg.InitVer, cfg.InitMode = 0, ""
+	src := drv.NewWorld(cfg)
+	if err := src.Open(); err != nil {
+		return out
+	}
+	defer src.Cleanup()
+	for i := 0; i < 10500; i++ {
+		k := []byte(fmt.Sprintf("big%05d", (i*7919)%10500))
+		v := []byte(fmt.Sprintf("b%d", i))
+		src.Tree.Set(k, v)
+		src.M.Set(k, v)
+		src.T.Set(k, v)
+		if i == 5000 {
+			src.Tree.SaveVersion()
+			src.M.Commit()
+			src.T.Commit()
+		}
+		if i%400 == 0 {
+			src.Universe[string(k)] = true
+		}
+	}
+	src.Tree.SaveVersion()
+	src.M.Commit()
+	src.T.Commit()
+	src.KeepSnaps = true
+	f := p.Config.Fast
+	c := 0
+	step := drv.Step{ID: 1, Op: drv.OpExpImp, N: 2, Codec: "plain", Fast: &f, Cache: &c}
+	srcSim := src.Sim
+	srcSim.KeepSnaps = true
+	if v := src.Apply(step); v != nil {
+		out.Violations = append(out.Violations, v)
+		return out
+	}
+	disk := src.Sim // the import target
+	n := disk.LogLen()
+	out.Stats["import_physical_writes"] = n
+	postM, postT := src.M.Clone(), src.T.Clone()
+	rec := &stepRec{step: step, idx: 0, lo: 0, hi: n, disk: disk, preM: ref.NewVMap(), preT: ref.NewTree(), postM: postM, postT: postT, cleanAfter: true}
+	recs := []*stepRec{rec}
+	// the sampled universe keeps the audits affordable
+	for k := range src.Universe {
+		recs = append(recs, &stepRec{step: drv.Step{ID: 2, Op: drv.OpSet, K: []byte(k)}, lo: n, hi: n, disk: disk, preM: postM, preT: postT, postM: postM, postT: postT})
+	}
+	stepLog := disk.Log(0, n)
+	cuts := 0
+	for cut := 1; cut < n; cut++ {
+		cuts++
+		out.Faults["crash.expimp"]++
+		cls := "expimp-big/" + spacesOf(stepLog, cut)
+		_, v := checkCut(p, recs, 0, rec, cut, cls)
+		if v != nil {
+			v.StepID = 1
+			out.Violations = append(out.Violations, v)
+			break
+		}
+	}
+	out.Evals = cuts
+	if cuts == 0 {
+		out.Evals = 1
+	}
+	out.Stats["cuts_enumerated"] = cuts
+	out.NonTrivial = cuts >= 1
+	return out
+}
+
 func execC05(p *drv.Plan) *Out {
+	if p.Mode == "big-import" {
+		return c05BigImport(p)
+	}
 	var recs []*stepRec
 	var cur *stepRec
 	idx := 0
@@ -274,6 +351,13 @@ func init() {
 			"reference models R1/R2 are the specification of 'state before' and 'state after'",
 		},
 		Rule: "one run = one fault-free execution of a generated history on the simulated disk recording the physical write log; then for EVERY multi-write step (commit, deletion of old versions, rollback, import commit, open that builds or rebuilds the fast index) and EVERY boundary strictly between two of its physical writes one evaluation: a fresh tree is opened on the disk image at that boundary (seeded fast/cache configuration) and the whole observable state (version APIs, every read of every retained version through tree walk, fast path and iteration, hashes) must equal the model before or the model after the step; if old, the operation is repeated and must reach the crash-free result; then one more write+commit must be canonical; evaluations = cuts; distinct non-trivial = plans with >=1 cut",
-		Gen:  func(seed uint64, run int, tier string) *drv.Plan { return genPlan("C05", seed, run, c05Bias(tier)) },
+		Gen: func(seed uint64, run int, tier string) *drv.Plan {
+			p := genPlan("C05", seed, run, c05Bias(tier))
+			if tier == "thorough" && run%500 == 77 {
+				p.Mode = "big-import"
+				p.Steps = nil
+			}
+			return p
+		},
 		Exec: execC05})
 }
